@@ -125,7 +125,9 @@ class Material:
 
     def _build_extra(self, kind: str, t: int, var: str) -> list[Item]:
         base = self.tree_items[t] if t < len(self.tree_items) else None
-        tag = f"{kind}.{var}(T{t})" if var else f"{kind}(T{t})"
+        tag = f"{kind}.{var}" if var else kind
+        if var not in ("nowhere", "chain", "on-genesis", "own-genesis"):
+            tag += f"(T{t})"
         if kind == "badsig":
             assert base is not None
             if var == "sig0":
@@ -272,7 +274,7 @@ def _cause_of_missing(offered: list[Item], exp: ref.Expect, present: set, missin
 
 
 def _extras_tag(scn: dict) -> str:
-    kinds = sorted({f"{e[0]}.{e[2]}" if e[2] else e[0] for e in scn["extras"]})
+    kinds = sorted({e[0] for e in scn["extras"]})
     return "+".join(kinds) if kinds else "plain"
 
 
@@ -325,7 +327,7 @@ def evaluate(scn: dict, order: list, memo: dict | None = None) -> dict:
                 cause = _cause_of_missing(offered[:k + 1], exp, have, missing)
                 key = f"missing-connected-token:{cause}"
                 if cause == "other":
-                    key += f":{_extras_tag(scn)}:cap{cap}"
+                    key += f":{_extras_tag(scn)}"
                 waiting = {_th(t) for t in tree.unchained}
                 viol.append((key, head + f"after offering {hist} elements are {_names(have, name_of)} and lack "
                              f"{_names(missing, name_of)} (waiting area holds {_names(waiting, name_of)}); every one "
@@ -395,7 +397,8 @@ def evaluate(scn: dict, order: list, memo: dict | None = None) -> dict:
             detail = ("holds-unsigned" if waiting - set(exp.valid) else
                       "holds-contained" if waiting & exp.contained else
                       "lost-waiting-token" if exp.waiting - waiting else "holds-unknown")
-            tag = _extras_tag(scn)
+            affected = (waiting - set(exp.valid)) or (waiting & exp.contained) or (exp.waiting - waiting) or waiting
+            tag = "+".join(sorted({cls_of.get(h, "unknown") for h in affected}))
             if detail == "holds-contained":
                 # a contained token still listed as waiting: did it wait next to a sibling (same defect class as
                 # missing-connected-token:fork-before-parent, made visible by a later duplicate)?
@@ -405,7 +408,8 @@ def evaluate(scn: dict, order: list, memo: dict | None = None) -> dict:
                          head + f"after {labels} the waiting area holds {_names(waiting, name_of)}, signed-but-"
                          f"unconnected offered tokens are {_names(exp.waiting, name_of)}", full))
         if overflow and (waiting - set(exp.valid)):
-            viol.append((f"waiting-area-mismatch:holds-unsigned:{_extras_tag(scn)}",
+            tag = "+".join(sorted({cls_of.get(h, "unknown") for h in waiting - set(exp.valid)}))
+            viol.append((f"waiting-area-mismatch:holds-unsigned:{tag}",
                          head + f"after {labels} the waiting area holds {_names(waiting - set(exp.valid), name_of)}",
                          full))
 
@@ -682,14 +686,6 @@ def build_scenarios(ctx: core.Ctx) -> tuple[list[dict], dict]:
     b["perm_wire"] = {"labelled_n_max": 5 if T else 4, "unlabelled_n_max": 6 if T else 5}
     for p in shapes(*b["perm_wire"].values()):
         scns.append(scenario("perm-wire", cv, owner, foreign, p, via="wire"))
-    # C: waiting area of 2
-    b["cap2"] = {"unlabelled_n_max": 6 if T else 5, "with_one_intruder_n_max": 3 if T else 2}
-    for p in shapes(0, b["cap2"]["unlabelled_n_max"]):
-        scns.append(scenario("cap2", cv, owner, foreign, p, cap=2))
-    for n in range(1, b["cap2"]["with_one_intruder_n_max"] + 1):
-        for p in unlabelled_shapes(n):
-            for e in extras_for(p):
-                scns.append(scenario("cap2-intruder", cv, owner, foreign, p, [e], cap=2))
     # D: one intruder at every position of every order
     b["intruder"] = {"unlabelled_n_max": 5 if T else 4, "two_token_intruders_n_max": 4 if T else 3}
     for n in range(1, b["intruder"]["unlabelled_n_max"] + 1):
@@ -699,11 +695,11 @@ def build_scenarios(ctx: core.Ctx) -> tuple[list[dict], dict]:
                     continue
                 scns.append(scenario("intruder", cv, owner, foreign, p, [e]))
     # E: two intruders
-    b["intruder_pairs"] = {"unlabelled_n_max": 3 if T else 2}
+    b["intruder_pairs"] = {"unlabelled_n_max": 3 if T else 2, "two_token_intruders_n_max": 2}
     for n in range(1, b["intruder_pairs"]["unlabelled_n_max"] + 1):
         for p in unlabelled_shapes(n):
             for e1, e2 in itertools.combinations(extras_for(p), 2):
-                if n == 3 and (e1[0], e1[2]) in TWO_ITEM and (e2[0], e2[2]) in TWO_ITEM:
+                if n == 3 and ((e1[0], e1[2]) in TWO_ITEM or (e2[0], e2[2]) in TWO_ITEM):
                     continue
                 scns.append(scenario("intruder-pair", cv, owner, foreign, p, [e1, e2]))
     # F: intruders through the wire form
@@ -714,6 +710,14 @@ def build_scenarios(ctx: core.Ctx) -> tuple[list[dict], dict]:
                 if (e[0], e[2]) in TWO_ITEM and n > 3:
                     continue
                 scns.append(scenario("intruder-wire", cv, owner, foreign, p, [e], via="wire"))
+    # C: waiting area of 2
+    b["cap2"] = {"unlabelled_n_max": 6 if T else 5, "with_one_intruder_n_max": 3 if T else 2}
+    for p in shapes(0, b["cap2"]["unlabelled_n_max"]):
+        scns.append(scenario("cap2", cv, owner, foreign, p, cap=2))
+    for n in range(1, b["cap2"]["with_one_intruder_n_max"] + 1):
+        for p in unlabelled_shapes(n):
+            for e in extras_for(p):
+                scns.append(scenario("cap2-intruder", cv, owner, foreign, p, [e], cap=2))
     # G: other curves (other signature and chunk lengths)
     b["other_curves"] = {"curves": ["very-low", "medium"] if T else ["very-low"], "labelled_n_max": 4 if T else 3,
                          "intruder_n_max": 2}
@@ -801,7 +805,7 @@ def run(ctx: core.Ctx) -> core.Report:
             scn = scns[sid]
             (o1, (p1, ord1)), (o2, (p2, ord2)) = sorted(oc.items(), key=lambda kv: kv[1][0])[:2]
             key = "order-dependent-result:" + ("fork" if has_fork(tuple(scn["parents"])) else
-                                               f"chain:{_extras_tag(scn)}:cap{scn['cap']}")
+                                               f"chain:{_extras_tag(scn)}")
             _, items = scenario_items(scn)
             what = (f"tree {shape_str(scn['parents'])}, waiting area {scn['cap']}, via {scn['via']}: offering "
                     f"{[items[i].label for i in ord1]} ends with (elements, waiting) = {_lab(o1, items)} but offering "
@@ -842,7 +846,7 @@ def run(ctx: core.Ctx) -> core.Report:
         "per_family": per_family,
         "evaluations_with_a_waiting_token": tot["waited"],
         "evaluations_past_waiting_area_bound": tot["overflow"],
-        "distinct_dumps_reloaded": tot["reloads"],
+        "dump_reloads_performed": tot["reloads"],
         "scenarios_with_order_dependent_result": multi,
         "content_attached_total": tot["content_attached"],
         "correct_content_refused": tot["correct_content_refused"],
@@ -882,7 +886,7 @@ def replay(ctx: core.Ctx, data: dict) -> list:
     if r1["outcome"] is not None and r2["outcome"] is not None and r1["outcome"] != r2["outcome"]:
         _, items = scenario_items(scn)
         key = "order-dependent-result:" + ("fork" if has_fork(tuple(scn["parents"])) else
-                                           f"chain:{_extras_tag(scn)}:cap{scn['cap']}")
+                                           f"chain:{_extras_tag(scn)}")
         out.append(core.Violation(key, f"{[items[i].label for i in data['orders'][0]]} -> {_lab(r1['outcome'], items)}"
                                        f" but {[items[i].label for i in data['orders'][1]]} -> "
                                        f"{_lab(r2['outcome'], items)}"))
